@@ -41,6 +41,15 @@ C["C06"] = ("Theorems C06_*: over the core table translated from parser.py: each
 C["C10"] = ("PARTIAL PROOF. Theorems C10_*: lookup is case-insensitive and idempotent; a class resolves a name to its own rule or the core rule, never another class's; defining/extending/redefining a rule in class c leaves every object of every other class and every existing definition object untouched PROVIDED the name does not resolve to a base-class object (C10_partial_isolated); the unrestricted statement is refuted in the model (C10_refuted, witness DIGIT), which replays on the implementation: two known findings (core-name shadowing; import by sharing). Tie: fresh-interpreter histories with registry snapshots and probe parses of the other class, the core rules and the ABNF reader, classified by evidence; whole final registry vs registry model.",
             TECH + " (registry model invariants; refutation witness by vm_compute) + fresh-process history correspondence", "DESIGN.md 4 C10")
 
+C["C09"] = ("Theorems C09_*: over the registry built by the loader model from the grammar texts, import lists and flag statements TRANSLATED from /repo on every run (texts read by the independent spec reader): all modules load; every rule is defined, closed, bounded, free of left recursion (certificate computed and checked by the verified checker), no prose left, and accepts at least one string (witness accepted by the engine run in the kernel); for every rule reaching no flag/exclusion the engine's ends are exactly the RFC relation M over that grammar; for all rules (rfc3986 host, rfc3987 flags included) the engine's denotation is the unique solution of the semantic equations. Tie: translator; complete object graph of all classes vs the loader model; per-module fresh-process behaviour of every rule on derived sentences/mutants vs the engine model.",
+            TECH + " (C01/C11 instantiated on generated grammars; obligations closed by vm_compute of verified checkers) + translator + graph and behaviour correspondence", "DESIGN.md 4 C09")
+C["C14"] = ("PARTIAL PROOF. Theorems C14_partial_*: kernel-evaluated over the loader model on the translated module descriptions: every module imported alone has, for each of its classes and for core/meta, the same configuration (spellings, definitions with first-match flags, exclusions) as when all modules are imported; likewise for four further orders of all modules and 36 ordered pairs. Not proved: all import sets/orders (would need a frame theorem for the loader up to rule-id renaming). Tie: fresh interpreters importing random subsets/orders vs module-alone, and module-alone vs loader model.",
+            TECH + " (obligations over the generated module descriptions closed by vm_compute) + translator + fresh-process import-order correspondence", "DESIGN.md 4 C14")
+C["C15"] = ("Theorems C15_*: each of the 24 meta rules and the same-named rule of rfc7405.Rule accept the same strings and match the same ends at every offset (every oracle); each of the 21 rules of rfc5234.Rule does so w.r.t. the grammar read from the RFC 5234 section 4 text (original char-val). Verified simulation checker + C01 on the reachable sub-grammars of the registry built from the translated texts. Tie: translator; parse_all acceptance of the three recognisers on derived sentences, mutants and %s/%i/prose fragments.",
+            TECH + " (verified language-equivalence checker + restriction lemma + C01, closed by vm_compute) + translator + differential correspondence", "DESIGN.md 4 C15")
+C["C19"] = ("Theorem C19: for 37 of the 46 listed pairs the two rules accept the same strings and match the same ends at every offset (verified simulation checker on the grammars built from the translated texts + C01 on reachable sub-grammars); every listed pair resolves to existing rules; 7 pairs (rfc2616 date rules vs rfc7231) are refuted in the kernel by a concrete string and recorded as a known finding (letter case); 2 pairs (rfc5987/rfc8187 charset, ext-value) are outside the theorem (checker incompleteness) and rest on the differential check. Tie: translator; parse_all acceptance of both rules on sentences derived from either side, mutants and fixed probes.",
+            TECH + " (verified language-equivalence checker over generated grammars, closed by vm_compute) + translator + differential correspondence", "DESIGN.md 4 C19")
+
 NA = {
  "C04": "check under construction in this session (visitor model + spec reader + translation validation of the 26 bundled texts); not claimed yet",
  "C05": "check under construction (generated meta table vs RFC grammar by verified language-equivalence checker); not claimed yet",
